@@ -104,13 +104,21 @@ def run_classes(rec, F):
     else:
         cl = F.closures_of(inh)
         copied = set()
+        direct = set()
         for bi, t in inh.calls():
-            if lastseg(t["f"]) == "for_each":
+            nm = lastseg(t.get("decl") or t["f"])
+            if nm in ("for_each", "iter", "into_iter", "keys", "values") and t["args"]:
+                # the superclass table is walked: closure form (iter().for_each) or a for loop
                 d = str(sem.desc_operand(inh, t["args"][0]))
                 for fld in ("methods", "fields"):
                     if fld in d and "('arg', 3)" in d:
                         copied.add(fld)
-        ins = sum(1 for c in cl for _, t in c.calls() if lastseg(t["f"]) == "insert")
+            if nm == "insert" and t["args"]:
+                d = str(sem.desc_operand(inh, t["args"][0]))
+                for fld in ("methods", "fields"):
+                    if fld in d and "('arg', 1)" in d:
+                        direct.add(fld)
+        ins = len(direct) + sum(1 for c in cl for _, t in c.calls() if lastseg(t["f"]) == "insert")
         sup = any(s["d"]["p"] and sem.place_has_field(s["d"], CLASS, "super_class") for _, _, s in inh.stmts())
         ok = copied == {"methods", "fields"} and ins >= 2 and sup
         rec.inst(R, "inherit: copies methods and fields, records super_class", ok=ok, loc=inh.loc)
@@ -177,8 +185,7 @@ def run_classes(rec, F):
         h = H(F, hn)
         if h is None:
             continue
-        errs = [t for _, t in h.calls() if lastseg(t["f"]).startswith("runtime_error")]
-        ok = any("'property'" in str(sem.desc_operand(h, t["args"][1])) for t in errs)
+        ok = "property" in sem.raised_error_classes(F, h)
         rec.inst(R, "%s: missing member -> property error" % hn, ok=ok, loc=h.loc)
         if not ok:
             rec.finding(R, "F4.class/%s/property-error" % hn, "%s does not raise the property error class for an undeclared member" % hn, loc=h.loc, fn=h.path)
